@@ -13,6 +13,7 @@ open KM.Token KM.Gen.C04
 structure Client where
   id : Str
   secret : Str      -- "" = public client (PKCE only)
+  chosenAudiences : Bool := false   -- allow_client_chose_audiences
 deriving DecidableEq, Repr
 
 /-- `keymasterdIDPCodeProtectedData` -/
@@ -122,6 +123,88 @@ def mintCode (cfg : Cfg) (user : Str) (q : AuthzReq) (t : Int) : Option Wire :=
       accessAudience := q.audience, jti := q.jti,
       protectedDataKey := if q.challenge.length > 0 then q.sealedKey else [],
       protectedData := if q.challenge.length > 0 then q.sealedData else [] } t)
+
+
+/-! ## the authorization request: every optional parameter the handler reads -/
+
+/-- the form of an authorization request (after `checkAuth` produced the logged-in user) -/
+structure AuthzForm where
+  responseType : Str
+  clientID : Str
+  scope : Str
+  redirect : Str
+  nonce : Str               -- "" = absent
+  audience : Str            -- "" = absent
+  challenge : Str           -- "" = absent
+  challengeMethod : Str     -- "" = absent
+  redirectOK : Bool         -- `CanRedirectToURL(redirect_uri)` for that client (property C13)
+  audienceOriginOK : Bool   -- `CorsOriginAllowed(audience)` for that client (https, host in an allowed domain)
+  jti : Str
+  sealedKey : Str
+  sealedData : Str
+
+inductive AzRej
+  | responseType | noClient | scope | unknownClient | redirect | challengeMethod | audience | nonce
+deriving DecidableEq, Repr
+
+/-- `strings.Split(s, " ")` -/
+def splitSp : Str → List Str
+  | [] => [[]]
+  | c :: rest =>
+    match splitSp rest with
+    | [] => [[c]]          -- unreachable: splitSp never returns []
+    | w :: ws => if c = ' ' then [] :: w :: ws else (c :: w) :: ws
+
+def scopeHasOpenid (s : Str) : Bool := (splitSp s).contains "openid".toList
+
+/-- what the form becomes once accepted -/
+def AuthzForm.toReq (f : AuthzForm) : AuthzReq :=
+  { client := f.clientID, redirect := f.redirect, scope := f.scope, nonce := f.nonce,
+    audience := if f.audience = [] then [] else [f.audience],
+    challenge := f.challenge, challengeMethod := f.challengeMethod, jti := f.jti,
+    sealedKey := f.sealedKey, sealedData := f.sealedData }
+
+/-- `idpOpenIDCAuthorizationHandler` after `checkAuth`, in source order: response_type, client_id,
+scope, client lookup, redirect, challenge-method gate, audience (client may choose one ∧ its origin is
+allowed), nonce length; then the code is minted. -/
+def authorize (cfg : Cfg) (user : Str) (f : AuthzForm) (t : Int) : Except AzRej Wire :=
+  if f.responseType != "code".toList then .error .responseType
+  else if f.clientID == [] then .error .noClient
+  else if !scopeHasOpenid f.scope then .error .scope
+  else match getClient cfg f.clientID with
+    | none => .error .unknownClient
+    | some cl =>
+      if !f.redirectOK then .error .redirect
+      else if decide (f.challenge.length > 0) && decide (f.challengeMethod.length > 0) && f.challengeMethod != "S256".toList
+        then .error .challengeMethod
+      else if f.audience != [] && !cl.chosenAudiences then .error .audience
+      else if f.audience != [] && !f.audienceOriginOK then .error .audience
+      else if decide (f.nonce.length < 6) && decide (f.nonce.length ≠ 0) then .error .nonce
+      else match mintCode cfg user f.toReq t with
+        | none => .error .challengeMethod
+        | some c => .ok c
+
+/-! ## the property's predicate on the released tokens -/
+
+/-- the ID token names this server as issuer, `client` as **sole** audience, `user` as subject,
+echoes `nonce` and expires no later than `expMax` -/
+def idTokenOK (d : Deployment) (client user nonce : Str) (expMax : Int) (w : Wire) : Bool :=
+  w .iss == some (.str d.issuer) && w .aud == some (.strs [client]) && w .sub == some (.str user) &&
+  gStr w .nonce == nonce &&
+  (match w .exp with
+   | some (.num e) => decide (e ≤ expMax)
+   | _ => false)
+
+/-- the access token is a `bearer` token of this server for `user` with the authorized scope, expiring
+no later than `expMax`; it carries an audience only if one was authorized, and then that one plus
+the userinfo endpoint -/
+def accessTokenOK (d : Deployment) (user scope : Str) (audiences : List Str) (expMax : Int) (w : Wire) : Bool :=
+  w .iss == some (.str d.issuer) && w .username == some (.str user) && w .scope == some (.str scope) &&
+  w .typ == some (.str accessType) &&
+  (match w .exp with
+   | some (.num e) => decide (e ≤ expMax)
+   | _ => false) &&
+  (if audiences = [] then w .aud == none else w .aud == some (.strs (audiences ++ [d.userinfoURL])))
 
 /-! ## the property's predicate: when may tokens be released -/
 
